@@ -55,7 +55,7 @@ check('C02', 'exploration',
       "(a) wire: a raw protocol peer independent of the repository's engine.io code records MESSAGE frames; a strict reference assembler (header -> exactly N binary frames) turns any "
       "interleaving into a protocol error; per-emitter sequence numbers must increase; s->c via raw client, c->s via a raw Engine.IO server, on polling / websocket / after a completed upgrade, "
       "1..16 emitters, 0..4 attachments. (b) handler-entry order in sio<->sio worlds, incl. a variant where every second event carries ~300 KB (decoding outlasts the dispatch grace); "
-      "rare inversions are the known finding (per-packet dispatch goroutines), systematic ones (>= 5 and >= 2 % of a case) are violations.",
+      "rare inversions are the known finding (per-packet dispatch goroutines), systematic ones (>= 10 and >= 10 % of a case) are violations.",
       "Order across the swap itself is C07's; ping/pong/noop between frames are ignored.",
       "independent wire observer + strict reassembly state machine + per-emitter monotonicity", "DESIGN.md §3 C02")
 
